@@ -386,6 +386,339 @@ fn roundtrip(c: &Case, f: F, order: Option<&mut Rng>) -> Res {
 }
 
 // ---------------------------------------------------------------------------------------
+// reference writer and reader (W3C N-Triples-star / N-Quads-star grammar and the Turtle
+// subset generate_turtle uses: @prefix lines, ';' and ',' lists, statements over several
+// lines).  Used ONLY to say which half of a failing round trip is at fault; never to
+// produce the expected dataset.
+
+fn ref_escape(x: &str) -> String {
+    let mut o = String::new();
+    for c in x.chars() {
+        match c {
+            '\\' => o.push_str("\\\\"),
+            '"' => o.push_str("\\\""),
+            '\n' => o.push_str("\\n"),
+            '\r' => o.push_str("\\r"),
+            c => o.push(c),
+        }
+    }
+    o
+}
+fn ref_term(t: &T) -> String {
+    match t {
+        T::Iri(x) => format!("<{}>", x),
+        T::Blank(x) => x.clone(),
+        T::Lit(x) => format!("\"{}\"", ref_escape(x)),
+        T::Q(b) => format!("<< {} {} {} >>", ref_term(&b.0), ref_term(&b.1), ref_term(&b.2)),
+    }
+}
+fn ref_write(c: &Case, f: F) -> String {
+    let mut o = String::new();
+    match f {
+        F::NQuads | F::NTriples => {
+            for q in &c.quads {
+                match (&q.g, f) {
+                    (None, _) => o.push_str(&format!("{} {} {} .\n", ref_term(&q.s), ref_term(&q.p), ref_term(&q.o))),
+                    (Some(g), F::NQuads) => o.push_str(&format!("{} {} {} {} .\n", ref_term(&q.s), ref_term(&q.p), ref_term(&q.o), ref_term(g))),
+                    _ => {}
+                }
+            }
+        }
+        F::Turtle => {
+            for (p, i) in &c.prefixes {
+                o.push_str(&format!("@prefix {}: <{}> .\n", p, i));
+            }
+            let mut by_s: BTreeMap<&T, BTreeMap<&T, Vec<&T>>> = BTreeMap::new();
+            for q in c.quads.iter().filter(|q| q.g.is_none()) {
+                by_s.entry(&q.s).or_default().entry(&q.p).or_default().push(&q.o);
+            }
+            for (s, ps) in by_s {
+                o.push_str(&ref_term(s));
+                for (i, (p, os)) in ps.iter().enumerate() {
+                    o.push_str(if i == 0 { " " } else { " ;\n    " });
+                    o.push_str(&ref_term(p));
+                    for (j, ob) in os.iter().enumerate() {
+                        o.push_str(if j == 0 { " " } else { " , " });
+                        o.push_str(&ref_term(ob));
+                    }
+                }
+                o.push_str(" .\n");
+            }
+        }
+    }
+    o
+}
+
+struct RefReader {
+    cs: Vec<char>,
+    i: usize,
+}
+impl RefReader {
+    fn peek(&self) -> Option<char> {
+        self.cs.get(self.i).copied()
+    }
+    fn skip(&mut self) {
+        while let Some(c) = self.peek() {
+            if c == ' ' || c == '\t' || c == '\n' || c == '\r' {
+                self.i += 1;
+            } else if c == '#' {
+                while let Some(c) = self.peek() {
+                    if c == '\n' {
+                        break;
+                    }
+                    self.i += 1;
+                }
+            } else {
+                break;
+            }
+        }
+    }
+    fn err<X>(&self, what: &str) -> Result<X, String> {
+        Err(format!("{} at character {}", what, self.i))
+    }
+    fn term(&mut self) -> Result<U, String> {
+        self.skip();
+        match self.peek() {
+            Some('<') if self.cs.get(self.i + 1) == Some(&'<') => {
+                self.i += 2;
+                let s = self.term()?;
+                let p = self.term()?;
+                let o = self.term()?;
+                self.skip();
+                if self.peek() == Some('>') && self.cs.get(self.i + 1) == Some(&'>') {
+                    self.i += 2;
+                    Ok(U::Q(Box::new((s, p, o))))
+                } else {
+                    self.err("quoted triple not closed by '>>' after three terms")
+                }
+            }
+            Some('<') => {
+                self.i += 1;
+                let mut x = String::new();
+                loop {
+                    match self.peek() {
+                        None => return self.err("IRI not closed"),
+                        Some('>') => {
+                            self.i += 1;
+                            return Ok(U::A(x));
+                        }
+                        Some(c) if (c as u32) <= 0x20 || "<\"{}|^`\\".contains(c) => return self.err("character not allowed inside <...>"),
+                        Some(c) => {
+                            x.push(c);
+                            self.i += 1;
+                        }
+                    }
+                }
+            }
+            Some('_') if self.cs.get(self.i + 1) == Some(&':') => {
+                let mut x = String::from("_:");
+                self.i += 2;
+                while let Some(c) = self.peek() {
+                    if c.is_alphanumeric() || c == '_' || c == '-' || c == '.' {
+                        x.push(c);
+                        self.i += 1;
+                    } else {
+                        break;
+                    }
+                }
+                while x.ends_with('.') {
+                    x.pop();
+                    self.i -= 1;
+                }
+                if x.len() == 2 {
+                    return self.err("empty blank node label");
+                }
+                Ok(U::A(x))
+            }
+            Some('"') => {
+                self.i += 1;
+                let mut x = String::new();
+                loop {
+                    let Some(c) = self.peek() else { return self.err("literal not closed") };
+                    self.i += 1;
+                    match c {
+                        '"' => break,
+                        '\n' | '\r' => return self.err("raw line break inside a literal"),
+                        '\\' => {
+                            let Some(e) = self.peek() else { return self.err("dangling backslash") };
+                            self.i += 1;
+                            match e {
+                                't' => x.push('\t'),
+                                'b' => x.push('\u{8}'),
+                                'n' => x.push('\n'),
+                                'r' => x.push('\r'),
+                                'f' => x.push('\u{c}'),
+                                '"' => x.push('"'),
+                                '\'' => x.push('\''),
+                                '\\' => x.push('\\'),
+                                'u' | 'U' => {
+                                    let n = if e == 'u' { 4 } else { 8 };
+                                    let mut v = 0u32;
+                                    for _ in 0..n {
+                                        let Some(d) = self.peek().and_then(|d| d.to_digit(16)) else { return self.err("bad \\u escape") };
+                                        v = v * 16 + d;
+                                        self.i += 1;
+                                    }
+                                    match char::from_u32(v) {
+                                        Some(ch) => x.push(ch),
+                                        None => return self.err("\\u escape is not a scalar value"),
+                                    }
+                                }
+                                _ => return self.err("unknown escape in literal"),
+                            }
+                        }
+                        c => x.push(c),
+                    }
+                }
+                match self.peek() {
+                    Some('@') | Some('^') => self.err("language tag / datatype (never emitted for this store)"),
+                    _ => Ok(U::A(x)),
+                }
+            }
+            Some(_) => self.err("not the start of a term"),
+            None => self.err("unexpected end of text"),
+        }
+    }
+    fn punct(&mut self, c: char) -> bool {
+        self.skip();
+        if self.peek() == Some(c) {
+            self.i += 1;
+            true
+        } else {
+            false
+        }
+    }
+}
+
+fn ref_read(text: &str, f: F) -> Result<BTreeSet<UQuad>, String> {
+    let mut r = RefReader { cs: text.chars().collect(), i: 0 };
+    let mut out = BTreeSet::new();
+    loop {
+        r.skip();
+        if r.peek().is_none() {
+            return Ok(out);
+        }
+        if f == F::Turtle && r.peek() == Some('@') {
+            // @prefix name: <iri> .
+            while let Some(c) = r.peek() {
+                if c == '<' {
+                    break;
+                }
+                if c == '\n' {
+                    return r.err("malformed @prefix line");
+                }
+                r.i += 1;
+            }
+            r.term()?;
+            if !r.punct('.') {
+                return r.err("'.' expected after @prefix");
+            }
+            continue;
+        }
+        let s = r.term()?;
+        loop {
+            let p = r.term()?;
+            loop {
+                let o = r.term()?;
+                let mut g = None;
+                if f == F::NQuads {
+                    r.skip();
+                    if r.peek() != Some('.') {
+                        g = Some(r.term()?);
+                    }
+                }
+                out.insert((s.clone(), p.clone(), o, g));
+                if f == F::Turtle && r.punct(',') {
+                    continue;
+                }
+                break;
+            }
+            if f == F::Turtle && r.punct(';') {
+                r.skip();
+                if r.peek() == Some('.') {
+                    break;
+                }
+                continue;
+            }
+            break;
+        }
+        if !r.punct('.') {
+            return r.err("'.' expected at the end of the statement");
+        }
+        if f != F::Turtle {
+            // one statement per line
+            while let Some(c) = r.peek() {
+                if c == '\n' {
+                    break;
+                }
+                if c != ' ' && c != '\t' && c != '\r' {
+                    return r.err("second statement on the same line");
+                }
+                r.i += 1;
+            }
+        }
+    }
+}
+
+/// which half of the round trip of `c` is at fault, judged against the reference grammar
+fn fault_side(c: &Case, f: F) -> (String, Value, bool) {
+    let db = build(c, None);
+    let expected: BTreeSet<LexQuad> = c.quads.iter().filter(|q| f == F::NQuads || q.g.is_none()).map(|q| lex_quad(&(erase(&q.s), erase(&q.p), erase(&q.o), q.g.as_ref().map(erase)))).collect();
+    let text = guard(|| match f {
+        F::NQuads => db.generate_nquads(),
+        F::NTriples => db.generate_ntriples(),
+        F::Turtle => db.generate_turtle(),
+    });
+    let mut export_valid = true;
+    let (export_ok, export_note) = match &text {
+        Err(e) => (false, format!("export panicked: {}", e)),
+        Ok(t) => match ref_read(t, f) {
+            Err(e) => {
+                export_valid = false;
+                (false, format!("export is not valid {}: {}", f.name(), e))
+            }
+            Ok(set) => {
+                let l: BTreeSet<LexQuad> = set.iter().map(lex_quad).collect();
+                if l == expected {
+                    (true, "export is valid and denotes the dataset".to_string())
+                } else {
+                    (false, format!("export is valid {} but denotes a different dataset", f.name()))
+                }
+            }
+        },
+    };
+    let rtext = ref_write(c, f);
+    let imported = guard(|| {
+        let mut d = SparqlDatabase::new();
+        match f {
+            F::NQuads => d.parse_nquads_and_add(&rtext),
+            F::NTriples => d.parse_ntriples_and_add(&rtext),
+            F::Turtle => d.parse_turtle(&rtext),
+        }
+        snapshot(&d)
+    });
+    let (import_ok, import_note) = match imported {
+        Err(e) => (false, format!("import of the reference text panicked: {}", e)),
+        Ok(Err(e)) => (false, e),
+        Ok(Ok(set)) => {
+            let l: BTreeSet<LexQuad> = set.iter().map(lex_quad).collect();
+            if l == expected {
+                (true, "the reader reads the reference serialisation correctly".to_string())
+            } else {
+                (false, "the reader misreads the reference serialisation".to_string())
+            }
+        }
+    };
+    let side = match (export_ok, import_ok) {
+        (false, true) => "export",
+        (true, false) => "import",
+        (false, false) => "export_and_import",
+        (true, true) => "only_in_combination",
+    };
+    (side.to_string(), json!({"export": export_note, "import": import_note, "reference_serialisation": rtext}), export_valid)
+}
+
+// ---------------------------------------------------------------------------------------
 // alphabet
 
 const TOKENS: &[(&str, &str)] = &[
@@ -926,7 +1259,7 @@ impl<'a> Reducer<'a> {
                 if c0 != 'a' {
                     cands.push('a');
                 }
-                if c0.is_whitespace() && c0 != ' ' {
+                if c0.is_whitespace() && c0 != ' ' && c0 != '\n' && c0 != '\r' {
                     cands.push(' ');
                 }
                 for r in cands {
@@ -1010,6 +1343,7 @@ impl<'a> Reducer<'a> {
                     T::Iri(x) if !is_plain_iri(x) => vec![fresh_iri(&cur)],
                     T::Blank(_) => vec![fresh_iri(&cur)],
                     T::Lit(x) if !is_plain_lit(x) => vec![T::Lit("a".into()), fresh_lit(&cur)],
+                    T::Lit(_) => vec![fresh_iri(&cur)],
                     _ => vec![],
                 };
                 for nt in cands {
@@ -1065,8 +1399,6 @@ fn char_class(c: char) -> Option<String> {
             '\\' => "backslash",
             '\n' => "lf",
             '\r' => "cr",
-            '\t' => "tab",
-            ' ' => "space",
             '<' => "lt",
             '>' => "gt",
             '{' => "lbrace",
@@ -1087,8 +1419,8 @@ fn char_class(c: char) -> Option<String> {
             '&' => "ampersand",
             '=' => "equals",
             '-' => "hyphen",
+            c if c.is_whitespace() => "white_space",
             c if c.is_control() => "control",
-            c if c.is_whitespace() => "unicode_space",
             c if c.is_ascii() => return Some(format!("ascii_{:02x}", c as u32)),
             c if (c as u32) > 0xFFFF => "non_bmp",
             c if (0x300..0x370).contains(&(c as u32)) => "combining",
@@ -1110,52 +1442,57 @@ fn classes(s: &str) -> String {
 }
 
 fn features(c: &Case) -> Vec<String> {
-    fn walk(t: &T, path: &str, out: &mut BTreeSet<String>) {
+    fn walk(t: &T, inside: bool, out: &mut BTreeSet<String>) {
+        let at = if inside { "inside_quoted_triple" } else { "top_level" };
         match t {
             T::Iri(x) => {
                 if !is_plain_iri(x) {
                     let scheme = x.split(':').next().unwrap_or("");
-                    let sch = if scheme == "http" || scheme == "https" { scheme } else { "other_scheme" };
+                    let sch = if scheme == "http" || scheme == "https" { "http" } else { "other_scheme" };
                     let rest = x.splitn(2, ':').nth(1).unwrap_or("");
                     let set: BTreeSet<String> = rest.chars().filter_map(char_class).filter(|k| k != "slash").collect();
-                    out.insert(format!("iri[{};{}]@{}", sch, set.into_iter().collect::<Vec<_>>().join("+"), path));
+                    out.insert(format!("iri[{};{}]@{}", sch, set.into_iter().collect::<Vec<_>>().join("+"), at));
                 }
             }
             T::Blank(_) => {
-                out.insert(format!("blank_node@{}", path));
+                out.insert(format!("blank_node@{}", at));
             }
             T::Lit(x) => {
                 if !is_plain_lit(x) {
-                    out.insert(format!("literal[{}]@{}", classes(x), path));
+                    out.insert(format!("literal[{}]@{}", classes(x), at));
                 }
             }
             T::Q(b) => {
-                out.insert(format!("quoted_triple@{}", path));
-                walk(&b.0, &format!("{}/qt.subject", path), out);
-                walk(&b.1, &format!("{}/qt.predicate", path), out);
-                walk(&b.2, &format!("{}/qt.object", path), out);
-                if let T::Lit(_) = &b.2 {
-                    out.insert(format!("literal_inside_quoted_triple@{}", path));
-                }
+                out.insert(if inside { "quoted_triple@inside_quoted_triple".to_string() } else { "quoted_triple".to_string() });
+                walk(&b.0, true, out);
+                walk(&b.1, true, out);
+                walk(&b.2, true, out);
             }
         }
     }
     let mut out = BTreeSet::new();
     for q in &c.quads {
-        walk(&q.s, "subject", &mut out);
-        walk(&q.p, "predicate", &mut out);
-        walk(&q.o, "object", &mut out);
+        walk(&q.s, false, &mut out);
+        walk(&q.p, false, &mut out);
+        walk(&q.o, false, &mut out);
         match &q.g {
             None => {}
+            Some(T::Blank(_)) => {
+                out.insert("blank_node_graph_name".to_string());
+            }
             Some(g) => {
                 out.insert("named_graph".to_string());
-                walk(g, "graph", &mut out);
+                walk(g, false, &mut out);
             }
         }
     }
+    // a hostile term inside a quoted triple implies the quoted triple
+    if out.iter().any(|x| x.ends_with("@inside_quoted_triple") && !x.starts_with("quoted_triple")) {
+        out.remove("quoted_triple");
+    }
     if c.quads.len() >= 2 {
         let d = |f: &dyn Fn(&Qd) -> T| c.quads.iter().map(f).collect::<BTreeSet<_>>().len();
-        out.insert(format!("shape[subjects={},predicates={},objects={},graphs={}]", d(&|q| q.s.clone()), d(&|q| q.p.clone()), d(&|q| q.o.clone()), c.quads.iter().map(|q| q.g.clone()).collect::<BTreeSet<_>>().len()));
+        out.insert(format!("shape[quads={},subjects={},predicates={}]", c.quads.len(), d(&|q| q.s.clone()), d(&|q| q.p.clone())));
     }
     for (p, _) in &c.prefixes {
         let kind = if p.is_empty() {
@@ -1177,30 +1514,94 @@ fn effect(expected: &BTreeSet<LexQuad>, got: &BTreeSet<LexQuad>) -> String {
     format!("lost={},added={}", n(lost), n(added))
 }
 
-/// reduce a failing case and report it
-fn report(ctx: &mut Ctx, c: &Case, f: F, first: &Res, origin: &str, backward: bool) -> String {
+/// reduce a failing case in one direction and report it; returns the reduced case
+fn report_one(ctx: &mut Ctx, c: &Case, f: F, first: &Res, origin: &str, backward: bool) -> Case {
     let mode = first.mode().unwrap_or_default();
     let mut evals = 0u64;
     let small = Reducer { f, mode: mode.clone(), evals: &mut evals, backward }.reduce(c);
     ctx.add_evals(evals);
     ctx.count("reduction_roundtrips", evals);
-    let feats = features(&small);
+    let mut feats = features(&small);
     let res = roundtrip(&small, f, None);
+    let (side, side_detail, export_valid) = fault_side(&small, f);
+    ctx.add_evals(2);
+    if !export_valid {
+        // the export does not even follow the grammar: for literals inside a quoted triple
+        // (written bare, without quotes) every delimiter character is a trigger of the same
+        // thing, so the character classes are left to the detail
+        let mut merged = BTreeSet::new();
+        for x in feats {
+            if x.starts_with("literal[") && x.ends_with("@inside_quoted_triple") {
+                merged.insert("hostile_literal@inside_quoted_triple_exported_without_delimiters".to_string());
+            } else if x != "quoted_triple@inside_quoted_triple" {
+                merged.insert(x);
+            }
+        }
+        feats = merged.into_iter().collect();
+    }
     let (sig, detail) = match &res {
         Res::Diff { text, expected, got } => (
-            json!({"kind": "reimport_differs", "format": f.name(), "irreducible_quads": small.quads.len(), "irreducible_features": feats, "effect_on_reduced_case": effect(expected, got)}),
-            json!({"reduced_case": case_json(&small), "exported_text": text, "expected_lexical_quads": lexquads_json(expected, 8), "reimported_lexical_quads": lexquads_json(got, 8), "found_in": origin, "original_case": case_json(&Case { quads: c.quads.iter().take(12).cloned().collect(), prefixes: c.prefixes.clone() }), "original_quads": c.quads.len()}),
+            json!({"kind": "reimport_differs", "format": f.name(), "fault": side, "irreducible": feats}),
+            json!({"reduced_case": case_json(&small), "irreducible_features_in_full": features(&small), "exported_text": text, "expected_lexical_quads": lexquads_json(expected, 8), "reimported_lexical_quads": lexquads_json(got, 8), "effect_on_reduced_case": effect(expected, got), "fault_attribution": side_detail, "found_in": origin, "original_case": case_json(&Case { quads: c.quads.iter().take(12).cloned().collect(), prefixes: c.prefixes.clone() }), "original_quads": c.quads.len()}),
         ),
-        Res::Panic { stage, msg } => (json!({"kind": "panic", "format": f.name(), "stage": stage, "site": panic_site(msg), "irreducible_features": feats}), json!({"reduced_case": case_json(&small), "panic": msg, "found_in": origin})),
+        Res::Panic { stage, msg } => (json!({"kind": "panic", "format": f.name(), "stage": stage, "site": panic_site(msg), "fault": side, "irreducible": feats}), json!({"reduced_case": case_json(&small), "irreducible_features_in_full": features(&small), "panic": msg, "fault_attribution": side_detail, "found_in": origin})),
         _ => {
             // cannot happen: the reducer only accepts failing cases
             (json!({"kind": "reduction_lost_the_failure", "format": f.name()}), json!({"case": case_json(c)}))
         }
     };
-    let key = sig.to_string();
     VIOL.with(|v| *v.borrow_mut() += 1);
     ctx.violation(sig, detail);
-    key
+    small
+}
+
+fn literal_classes(c: &Case) -> BTreeSet<String> {
+    let mut out = BTreeSet::new();
+    for t in terms_of(c) {
+        if let T::Lit(x) = t {
+            if !is_plain_lit(&x) {
+                out.extend(x.chars().filter_map(char_class));
+            }
+        }
+    }
+    out
+}
+
+/// Report a failing case.  Several independent defects can hide behind one hostile literal:
+/// reduce from both ends, then neutralise the character classes of the reduced witnesses in
+/// the original (replace them by a letter) and look again, up to four times.
+fn report(ctx: &mut Ctx, c: &Case, f: F, first: &Res, origin: &str) {
+    let mut cur = c.clone();
+    let mut res_owned: Option<Res> = None;
+    for round in 0..4 {
+        let res: &Res = match &res_owned {
+            None => first,
+            Some(r) => r,
+        };
+        if res.mode().is_none() {
+            break;
+        }
+        if round > 0 {
+            ctx.count("further_causes_looked_for_after_neutralising_the_first", 1);
+        }
+        let a = report_one(ctx, &cur, f, res, origin, false);
+        let b = report_one(ctx, &cur, f, res, origin, true);
+        let mut hostile = literal_classes(&a);
+        hostile.extend(literal_classes(&b));
+        if hostile.is_empty() {
+            break;
+        }
+        let next = map_case(&cur, &|t| match t {
+            T::Lit(x) => Some(T::Lit(x.chars().map(|ch| if char_class(ch).map_or(false, |k| hostile.contains(&k)) { 'a' } else { ch }).collect())),
+            _ => None,
+        });
+        if next == cur || !valid_case(&next) {
+            break;
+        }
+        cur = next;
+        ctx.add_evals(1);
+        res_owned = Some(roundtrip(&cur, f, None));
+    }
 }
 
 // ---------------------------------------------------------------------------------------
@@ -1289,9 +1690,7 @@ fn check_dataset(ctx: &mut Ctx, c: &Case, f: F, order: &mut Rng, origin: &str) {
         return;
     }
     if c.quads.len() == 1 {
-        let k1 = report(ctx, c, f, &res, origin, false);
-        let _ = k1;
-        report(ctx, c, f, &res, origin, true);
+        report(ctx, c, f, &res, origin);
         return;
     }
     // isolate: every quad on its own, then the quads that are fine on their own together
@@ -1302,20 +1701,19 @@ fn check_dataset(ctx: &mut Ctx, c: &Case, f: F, order: &mut Rng, origin: &str) {
         let r1 = if budget > 0 { observed_roundtrip(ctx, &single, f, None) } else { Res::Same { structural_same: true, relabelled: false, text_len: 0 } };
         if r1.mode().is_some() {
             budget -= 1;
-            report(ctx, &single, f, &r1, origin, false);
-            report(ctx, &single, f, &r1, origin, true);
+            report(ctx, &single, f, &r1, origin);
         } else {
             fine.push(q.clone());
         }
     }
     if fine.len() == c.quads.len() {
-        report(ctx, c, f, &res, origin, false);
+        report(ctx, c, f, &res, origin);
     } else if fine.len() >= 2 {
         let rest = Case { quads: fine, prefixes: c.prefixes.clone() };
         let r2 = observed_roundtrip(ctx, &rest, f, None);
         if r2.mode().is_some() {
             ctx.count("datasets_failing_although_every_quad_alone_is_fine", 1);
-            report(ctx, &rest, f, &r2, origin, false);
+            report(ctx, &rest, f, &r2, origin);
         }
     }
 }
@@ -1353,8 +1751,7 @@ fn run(ctx: &mut Ctx) {
             }
             ctx.count(&format!("token_cases_not_reproduced.{}.{}", f.name(), POSITIONS[position]), 1);
             let origin = format!("tokens: {} {} at {}", name, PLACEMENTS[placement], POSITIONS[position]);
-            report(ctx, &c, f, &res, &origin, false);
-            report(ctx, &c, f, &res, &origin, true);
+            report(ctx, &c, f, &res, &origin);
         }
         if ctx.wants_sample() && k % 977 == 3 {
             ctx.sample(json!({"case": case_json(&c), "format": f.name(), "reproduced": res.mode().is_none()}));
@@ -1382,7 +1779,7 @@ fn run(ctx: &mut Ctx) {
         let res = observed_roundtrip(ctx, &c, f, Some(&mut order));
         if res.mode().is_some() {
             let origin = format!("iris: {} at {}", x, IRI_POSITIONS[position]);
-            report(ctx, &c, f, &res, &origin, false);
+            report(ctx, &c, f, &res, &origin);
         } else {
             ctx.count(&format!("iri_cases_reproduced.{}", f.name()), 1);
         }
@@ -1411,8 +1808,7 @@ fn run(ctx: &mut Ctx) {
         let res = observed_roundtrip(ctx, &c, f, None);
         if res.mode().is_some() {
             let origin = format!("pairs: {} + {}", TOKENS[i].0, TOKENS[j].0);
-            report(ctx, &c, f, &res, &origin, false);
-            report(ctx, &c, f, &res, &origin, true);
+            report(ctx, &c, f, &res, &origin);
         }
     }
 
@@ -1465,7 +1861,7 @@ fn run(ctx: &mut Ctx) {
             let mut order = ctx.rng_labeled("order", k);
             let res = observed_roundtrip(ctx, &c, f, Some(&mut order));
             if res.mode().is_some() {
-                report(ctx, &c, f, &res, &format!("big:{}", k), false);
+                report(ctx, &c, f, &res, &format!("big:{}", k));
             } else {
                 ctx.count(&format!("big_datasets_reproduced.{}", f.name()), 1);
             }
